@@ -106,6 +106,56 @@ pub fn run(rep: &mut Rep) {
             }
         }
     }
+    // requests issued before run() is first polled wait in the queue and are served in order once it runs
+    rep.note("early operations: 1-7 operations of every kind started after connect() returned and before run() is first polled (Receive Maximum absent / 1 / 2), then acknowledged in PRNG order: same results as if issued while running; a third of the cases cancel one of them before run() starts");
+    let ekinds = [Kind::Pub1, Kind::Sub, Kind::Pub2, Kind::Ping, Kind::Unsub, Kind::Pub0, Kind::Pub1];
+    for n in 1..=7usize {
+        for rmax in [None, Some(1u16), Some(2)] {
+            for variant in 0..3u64 {
+                let id = format!("early:{n}:{:?}:{variant}", rmax);
+                idx += 1;
+                if !rep.take(idx, &id) {
+                    continue;
+                }
+                let mut rng = crate::sim::Rng::new(rep.seed.wrapping_mul(523).wrapping_add(idx));
+                let early: Vec<Kind> = (0..n).map(|j| ekinds[(j + variant as usize) % ekinds.len()]).collect();
+                let mut w = World::boot_early(WorldCfg { seed: rep.seed.wrapping_add(variant), receive_max: rmax, via_auth: Some(variant == 1), ..Default::default() }, &early);
+                w.settle_check();
+                if variant == 2 && n >= 2 {
+                    // (cancelling after run() has started is C15's business; here only the survivors' results matter)
+                    let victim = rng.below(n);
+                    if w.sim.ops[victim].task.alive() {
+                        w.drop_op(victim);
+                        w.settle_check();
+                    }
+                }
+                let mut guard = 0;
+                loop {
+                    let mut ackable = w.ackable();
+                    let pings = w.pings_outstanding().len();
+                    if (ackable.is_empty() && pings == 0) || w.blind || guard > 40 {
+                        break;
+                    }
+                    if pings > 0 && (ackable.is_empty() || rng.chance(1, 3)) {
+                        w.pingresp();
+                    } else {
+                        let (i, st) = ackable.swap_remove(rng.below(ackable.len()));
+                        w.deliver_ack(i, st, rng.below(9), (rng.next() % 2) as u8);
+                    }
+                    w.settle_check();
+                    guard += 1;
+                }
+                super::script::finish(&mut w);
+                rep.add("evaluations", 1);
+                rep.add("early_operation_cases", 1);
+                rep.distinct(&("early", n, rmax, variant));
+                if super::harvest(rep, &mut w, &id) == 0 {
+                    rep.sample(|| format!("{id}: {:?} queued before run(): results {:?}", early, w.sim.ops.iter().map(|o| o.out.as_ref().map(|x| x.brief())).collect::<Vec<_>>()));
+                }
+                super::add_counters(rep, &w);
+            }
+        }
+    }
     // across the identifier wrap: operations of one kind issued while the 16-bit counter passes 65535 -> 1, all
     // outstanding together, acknowledged in reverse and in PRNG order with distinct contents
     rep.note("identifier wrap: 6 operations of one kind (pub1 / pub2 / sub / unsub, and mixed) started with the counter at 65531..65535 (hook H2) from two clones, all outstanding, acknowledged last-first / PRNG order, each with its own reason code and reason string");
@@ -276,6 +326,7 @@ pub fn run(rep: &mut Rep) {
     wr.terms = vec![TermAct::Eof, TermAct::ReadErr, TermAct::ServerDisconnect { reason: 0x8b, form: 2, props: false }, TermAct::UserDisconnect];
     wr.reconnect = true;
     wr.drops = true;
-    rep.note("walks across connections: the same alphabet plus {EOF, read error, server DISCONNECT, user DISCONNECT} and, once run() has returned, 'connect the same Context again' (session resumed / resumed under Receive Maximum 2 / expired / no disconnection recorded); unfinished QoS 1/2 publishes complete on the acknowledgements of the new connection, everything else keeps its own result");
+    wr.handle_churn = true;
+    rep.note("walks across connections (handle clones created and dropped along the way): the same alphabet plus {EOF, read error, server DISCONNECT, user DISCONNECT} and, once run() has returned, 'connect the same Context again' (session resumed / resumed under Receive Maximum 2 / expired / no disconnection recorded); unfinished QoS 1/2 publishes complete on the acknowledgements of the new connection, everything else keeps its own result");
     walk_world(rep, "walkrc", walks, steps, &|s| World::boot(WorldCfg { seed: s, sei: if s % 3 == 0 { None } else { Some(3600) }, order: (s % 4) as u8, ..Default::default() }), &wr);
 }
